@@ -28,13 +28,14 @@ K04 = [
     Skeleton("i05_parameter", {"main.py": "def fun({0}, {1}=2):\n    return {0} + {1}\n{2} = 1\nprint(fun({2}))\nprint(fun({2}, 3))\n"}),
     Skeleton("i06_multi_statement_body", {"main.py": "def {0}({1}):\n    {2} = {1} * 2\n    if {2} > 2:\n        {2} = 0\n    return {2}\n{3} = {0}(1)\n{4} = {0}(2)\nprint({3}, {4})\n"}),
     Skeleton("i07_nested_call_args", {"main.py": "def {0}({1}, {2}):\n    return {1} - {2}\n{3} = 1\n{4} = 2\nprint({0}({0}({3}, {4}), {2}={3}))\n"}),
+    Skeleton("i08_method_dotted_receiver", {"main.py": "class Inner:\n    def __init__(self):\n        self.val = 3\n    def {0}(self, {1}, {2}=1):\n        return [self.val, {1}, {2}]\nclass Holder:\n    def __init__(self):\n        self.inner = Inner()\n{3} = Holder()\nprint({3}.inner.{0}(4), {3}.inner.{0}(5, {2}=6))\n"}),
 ]
 
 
 def instances(tier):
     out = []
     for k, sk in enumerate(K04):
-        if tier == "quick" and k >= 4:
+        if tier == "quick" and 4 <= k < 7:
             continue
         nocc = sum(len(re.findall(r"\{\d+\}", t)) for t in sk.files.values())
         for q in range(nocc):
@@ -61,7 +62,9 @@ def make_run(p):
         return dict(api="inline", path=path, offset=off, remove=remove, only_current=only_current)
 
     def run():
-        return bref.run_refactoring(sk, build_op, PROPERTY, check_imports=True)
+        from harness.c04_replay import tags_of
+
+        return bref.run_refactoring(sk, build_op, PROPERTY, check_imports=True, tagger=tags_of)
 
     return run
 
